@@ -7,7 +7,7 @@ import GomlVerif.Driver.DecGo
 import GomlVerif.Driver.Dce
 /-!
 `gomlmodel gocomp`: one line per program
-`id<TAB>offset<TAB>env<TAB>annotated-anf<TAB>go(fresh counter)<TAB>go(pipeline)`.
+`id<TAB>offset<TAB>env<TAB>annotated-anf<TAB>go(fresh counter)<TAB>go(pipeline)[<TAB>(impls (trait key method fn)…)]`.
 Prints `id<TAB>fresh<TAB>pipe<TAB>fns<TAB>frag` where
 * `fresh` / `pipe`: `EQ` or `DIFF:<first differing item>` or `UNSUPPORTED` — the model
   `eliminateDeadVars (goFilePre env file n)` against the real `go_file` output, all items, in order
@@ -142,34 +142,49 @@ def perFn (env : Env) (file : AFile) (real : GFile) : List String :=
       (f.name ++ "=" ++ verdict) :: go r.2 rest
   go { n := 0, ok := true } file
 
-/-- per ANF function: `in` (inside `InGoFragment`, fresh counter) or the reason it is outside -/
-def fragInfo (env : Env) (file : AFile) : List String :=
+/-- per ANF function: `in` (inside `InGoFragment`, fresh counter), `in(dyn)` (inside `InGoFragmentD` only: with trait
+    objects, and the program's dispatch table passes `implsOK`; `in(dyn:impls?)` when it does not or no table was given),
+    or the reason it is outside both -/
+def fragInfo (env : Env) (file : AFile) (impls : Option (List (String × String × String × String))) : List String :=
   let G := Goml.GoFrag.goodFns env file 0
   let closed := Goml.GoFrag.closedOK env file 0 G
+  let GD := Goml.GoFrag.goodFnsD env file 0
+  let closedD := Goml.GoFrag.closedOKD env file 0 GD
+  let iok := match impls with
+    | some t => Goml.GoFrag.implsOK env file GD { fns := file.map AFn.toFn, impls := t }
+    | none => false
   let rec go (st : St) : List AFn → List String
     | [] => []
     | f :: rest =>
-      (f.name ++ "=" ++ (match Goml.GoFrag.outsideReason env file 0 G closed st f with
-        | none => if Goml.GoFrag.stdFn f then "in(typed)" else "in"
-        | some r => r)) ::
+      (f.name ++ "=" ++
+        (if closed && G.contains f.name then (if Goml.GoFrag.stdFn f then "in(typed)" else "in")
+         else match Goml.GoFrag.outsideReason env file 0 GD closedD st f with
+          | none => if iok then "in(dyn)" else "in(dyn:impls?)"
+          | some r => r)) ::
         go (compileFn env st f).2 rest
   go { n := 0, ok := true } file
 
 def clean (s : String) : String := s.map fun c => if c == '\t' || c == '\n' || c == ',' then ' ' else c
 
+def runCase (id off envS anfS freshS pipeS : String) (implsS : Option String) : String :=
+  match (Sexp.parse envS).bind decEnv, (Sexp.parse anfS).bind decAFile,
+        (Sexp.parse freshS).bind decGFile, (Sexp.parse pipeS).bind decGFile with
+  | some env, some file, some fresh, some pipe =>
+    let t1 := tie env file 0 fresh
+    let t2 := match off.toNat? with
+      | some n => tie env file n pipe
+      | none => "SKIP"
+    let typed := (Goml.GoTyping.tieFile fresh).map fun p => clean p.1 ++ "=" ++ clean p.2
+    let impls := match implsS.bind Sexp.parse with
+      | some (.list (.atom "impls" :: rows)) => some (rows.filterMap decImpl)
+      | _ => none
+    s!"{id}\t{clean t1}\t{clean t2}\t{",".intercalate ((perFn env file fresh).map clean)}\t{",".intercalate ((fragInfo env file impls).map clean)}\t{",".intercalate typed}"
+  | e, f, g, p => s!"{id}\tdecode-error env={e.isSome} anf={f.isSome} fresh={g.isSome} pipe={p.isSome}"
+
 def runLine (l : String) : String :=
   match l.splitOn "\t" with
-  | [id, off, envS, anfS, freshS, pipeS] =>
-    match (Sexp.parse envS).bind decEnv, (Sexp.parse anfS).bind decAFile,
-          (Sexp.parse freshS).bind decGFile, (Sexp.parse pipeS).bind decGFile with
-    | some env, some file, some fresh, some pipe =>
-      let t1 := tie env file 0 fresh
-      let t2 := match off.toNat? with
-        | some n => tie env file n pipe
-        | none => "SKIP"
-      let typed := (Goml.GoTyping.tieFile fresh).map fun p => clean p.1 ++ "=" ++ clean p.2
-      s!"{id}\t{clean t1}\t{clean t2}\t{",".intercalate ((perFn env file fresh).map clean)}\t{",".intercalate ((fragInfo env file).map clean)}\t{",".intercalate typed}"
-    | e, f, g, p => s!"{id}\tdecode-error env={e.isSome} anf={f.isSome} fresh={g.isSome} pipe={p.isSome}"
+  | [id, off, envS, anfS, freshS, pipeS] => runCase id off envS anfS freshS pipeS none
+  | [id, off, envS, anfS, freshS, pipeS, implsS] => runCase id off envS anfS freshS pipeS (some implsS)
   | _ => "?\tbad-line"
 
 def main : IO Unit := do
